@@ -298,6 +298,8 @@ func (p *Prog) Holds(st *State, r Req) bool {
 	if st == nil {
 		return false
 	}
+	p.holdsState = st
+	defer func() { p.holdsState = nil }()
 	for _, f := range st.Facts {
 		if p.factHolds(f, r) {
 			return true
@@ -306,9 +308,40 @@ func (p *Prog) Holds(st *State, r Req) bool {
 	return false
 }
 
+// altContradicted: an alternative of a join-disjunction contains an atom whose negation is known
+// unconditionally in the state: that alternative cannot be the one that holds.
+func (p *Prog) altContradicted(alt []*Fact, st *State) bool {
+	if st == nil {
+		return false
+	}
+	for _, af := range alt {
+		if af.Alt != nil {
+			continue
+		}
+		for _, a1 := range p.atoms(af.E, af.Val, af.Env, af.Frozen, 0) {
+			for _, bf := range st.Facts {
+				if bf.Alt != nil {
+					continue
+				}
+				for _, a2 := range p.atoms(bf.E, bf.Val, bf.Env, bf.Frozen, 0) {
+					if a1.Val != a2.Val && p.Same(a1.term(a1.E), a2.term(a2.E)) {
+						return true
+					}
+				}
+			}
+		}
+	}
+	return false
+}
+
 func (p *Prog) factHolds(f *Fact, r Req) bool {
 	if f.Alt != nil {
+		live := 0
 		for _, alt := range f.Alt {
+			if p.altContradicted(alt, p.holdsState) {
+				continue
+			}
+			live++
 			ok := false
 			for _, af := range alt {
 				if p.factHolds(af, r) {
@@ -320,7 +353,7 @@ func (p *Prog) factHolds(f *Fact, r Req) bool {
 				return false
 			}
 		}
-		return true
+		return live > 0
 	}
 	for _, a := range p.atoms(f.E, f.Val, f.Env, f.Frozen, 0) {
 		if r(a) {
